@@ -38,6 +38,7 @@ class State(object):
         self.project_modules = ()
         self.filename = None
         self.read_names = ()
+        self.dead = False     # the path was aborted (Prune): finally blocks still run while unwinding, unobserved
 
     def __init__(self):
         self.reset()
@@ -46,12 +47,19 @@ class State(object):
 S = State()
 
 
+def _prune(why):
+    S.pruned = S.pruned or why
+    S.dead = True
+    raise Prune()
+
+
 def decide(n):
     i = len(S.arity)
+    if S.dead:
+        raise Prune()
     if i >= DECISION_CAP:
         S.capped = True
-        S.pruned = 'decision-cap'
-        raise Prune()
+        _prune('decision-cap')
     c = S.prefix[i] if i < len(S.prefix) else 0
     if c >= n:          # program changed shape under a stale prefix: cannot happen in a DFS
         c = n - 1
@@ -169,10 +177,11 @@ def call(f, *a, **k):
 
 def _call(f):
     import inspect
+    if S.dead:
+        raise Prune()
     if S.calls >= CALL_CAP:
         S.capped = True
-        S.pruned = 'call-cap'
-        raise Prune()
+        _prune('call-cap')
     S.calls += 1
     if not isinstance(f, (types.FunctionType, types.MethodType, type)):
         return f() if callable(f) else V()
@@ -204,6 +213,8 @@ def _call(f):
 # observation primitives inserted by the instrumenter
 
 def pre(rid):
+    if S.dead:
+        return rid
     if S.pending is not None:
         _fail(S.pending)
     S.pending = rid
@@ -218,6 +229,8 @@ def _fail(rid):
 
 
 def r(rid, val):
+    if S.dead:
+        return val
     S.pending = None
     # the binding that delivered the object is the latest one that tagged it under this name; an object not
     # tagged yet (with-item targets are tagged at the first body statement) is resolved at the end of the path
@@ -227,6 +240,8 @@ def r(rid, val):
 
 
 def bound(key, name, val):
+    if S.dead:
+        return
     S.tags.setdefault(id(val), {})[name] = key
     S.keep.append(val)
     if type(val) is types.FunctionType and id(val) not in S.func_ids and val.__code__.co_filename == S.filename:
@@ -289,8 +304,7 @@ def wtest(wid, val):
         c = S.wcount.get(wid, 0) + 1
         S.wcount[wid] = c
         if c > WHILE_TRIPS:
-            S.pruned = 'while-bound'
-            raise Prune()
+            _prune('while-bound')
         return True
     return False
 
